@@ -120,6 +120,7 @@ fn cmd_fw(args: &[String]) {
     let mut events = 0usize;
     let mut actions = 0usize;
     let mut ev_kinds = [0usize; 10];
+    let mut prob_pairs = [0usize; 3]; // C10: probabilistic pairs run, in which the machine drew random words, and also acted
     for i in 0..n {
         let mut r = master.fork();
         if let Some(o) = only {
@@ -149,6 +150,15 @@ fn cmd_fw(args: &[String]) {
                 writeln!(meta, "replay position={} combined: {} || solo: {}", pos, describe_case(2 * i, &comb, &rc), describe_case(2 * i + 1, &solo, &rs)).unwrap();
             }
             if let Some(v) = props::mon_c10(&rc, &rs, pos) {
+                violations += 1;
+                writeln!(meta, "violation case={} {}", i, v).unwrap();
+            }
+            // the same property for an arbitrary (probabilistic) machine, directly on the implementation
+            let (v, drew, acted) = props::c10_prob_direct(&mut r);
+            prob_pairs[0] += 1;
+            prob_pairs[1] += drew as usize;
+            prob_pairs[2] += (drew && acted) as usize;
+            if let Some(v) = v {
                 violations += 1;
                 writeln!(meta, "violation case={} {}", i, v).unwrap();
             }
@@ -191,7 +201,7 @@ fn cmd_fw(args: &[String]) {
     }
     writeln!(
         meta,
-        "summary cases={} nontrivial={} violations={} panics={} calls={} events={} actions={} ev_kinds={:?}",
+        "summary cases={} nontrivial={} violations={} panics={} calls={} events={} actions={} ev_kinds={:?} probabilistic_pairs_run_drew_acted={:?}",
         n,
         nontrivial.len(),
         violations,
@@ -199,7 +209,8 @@ fn cmd_fw(args: &[String]) {
         calls,
         events,
         actions,
-        ev_kinds
+        ev_kinds,
+        prob_pairs
     )
     .unwrap();
 }
